@@ -14,7 +14,8 @@ THEOREMS = ["KaVerif.C12_range_mem", "KaVerif.C12_range_sorted", "KaVerif.C12_ra
             "KaVerif.C12_comprehension", "KaVerif.C12_comprehension_error",
             "KaVerif.PIPE_array_sum", "KaVerif.PIPE_statements"]
 RULE = ("ranges lo..hi over bounds in [-12,12] plus huge/negative/reversed; range(lo,hi,step) with integer, fractional and float "
-        "steps incl. zero/negative; arrays of 0-12 elements of every kind (ints, fractions, floats, lazy combinatorics, quantities in "
+        "steps incl. zero/negative, and float steps next to 2^51..2^54 / 1e15..2e16 that are rounded or absorbed (operands by "
+        "construction, independent reference loop; a round without progress must be FunctionArgError); arrays of 0-12 elements of every kind (ints, fractions, floats, lazy combinatorics, quantities in "
         "mixed units of one dimension, mixed-dimension for the error path, nested arrays); comprehensions with 1-3 generators of "
         "unequal lengths and 0-3 conditions incl. non-boolean ones; all as Ka text through the real pipeline; non-trivial = non-empty "
         "operand; distinct = distinct Ka text")
@@ -124,6 +125,30 @@ def check(ctx):
             cases.append(("arr rangestep %s %s %s" % (num_canon(qlo.numerator if qlo.denominator == 1 else qlo),
                                                        num_canon(qhi.numerator if qhi.denominator == 1 else qhi),
                                                        num_canon(qst.numerator if qst.denominator == 1 else qst)), real_ans(k, v), text))
+    # ------------------------------------------------------------ range(lo, hi, step) where float rounding decides
+    # (fix efcc27a: a round that makes no progress is FunctionArgError).  Operands by construction, an independent reference
+    # loop on Python numbers (pipeline.reference_range); the texts go through both whole-program models below.
+    float_texts = []
+    fixed_fr = [("2251799813685248.5", "2251799813685268.5", "0.7", 2251799813685248.5, 2251799813685268.5, 0.7),
+                ("1e16", "1e16+4", "0.5", 10 ** 16, 10 ** 16 + 4, 0.5), ("10^16", "10^16+4", "0.5", 10 ** 16, 10 ** 16 + 4, 0.5),
+                ("9007199254740992", "9007199254740996", "0.5", 2 ** 53, 2 ** 53 + 4, 0.5),
+                ("4503599627370496.0", "4503599627370500.0", "0.5000001", 2 ** 52, 2 ** 52 + 4, 0.5000001),
+                ("0.5", "3", "0.1", 0.5, 3, 0.1), ("0", "1", "0.1", 0, 1, 0.1)]
+    for i in range(ctx.n(120, 1500) + len(fixed_fr)):
+        lo_t, hi_t, st_t, lo, hi, st = fixed_fr[i] if i < len(fixed_fr) else pipeline.float_range_case(rng)
+        text = "range(%s, %s, %s)" % (lo_t, hi_t, st_t)
+        want = pipeline.reference_range(lo, hi, st)
+        k, v = R.value(text)
+        ctx.count(text, nontrivial=True, bucket="range-step-float/" + ("stuck" if want == "funarg" else "list"))
+        if want == "funarg":
+            if k == "ok" or v != "funarg":
+                ctx.violation("range-float:" + text, text, "FunctionArgError (a step too small to advance)", real_ans(k, v)[:200], "execute(%r)" % text)
+        elif want is not None:
+            got = [(type(x).__name__, Fraction(x)) for x in v.contents] if k == "ok" and isinstance(v, T.Array) else None
+            if got != [(type(x).__name__, Fraction(x)) for x in want]:
+                ctx.violation("range-float:" + text, text, str(want)[:200], real_ans(k, v)[:200],
+                              "execute(%r); expected: lo, then curr + step as Python adds the kinds, while <= hi" % text)
+        float_texts += [text, "size(%s)" % text, "{x - (%s) : x in %s}" % (lo_t, text)]
     # ------------------------------------------------------------ aggregates
     qpool = {"len": ["1 m", "100 cm", "2 km", "3 in", "1/2 m", "2.5 m", "1 mi"], "time": ["3 s", "1 min", "2 h", "1/3 s", "0.5 s"],
              "dimless": ["2 rad", "1 dozen", "90 deg"]}
@@ -377,7 +402,7 @@ def check(ctx):
         return real.startswith("err") and model.startswith("err") and {real, model} <= {"err eval", "err nomatch"}
     ctx.correspond("arr", cases, agree=agree)
     # the same array programs as text through the unified pipeline model (status + exact display)
-    texts = [c[2] for c in cases if isinstance(c[2], str)]
+    texts = float_texts + [c[2] for c in cases if isinstance(c[2], str)]
     pipeline.run(ctx, [t for t in texts[: ctx.n(2500, 25000)] if len(t) < 3000], label="run-c12", min_modelled=0.0, bodies=True)
 
 
